@@ -78,6 +78,17 @@ class C15Executor(Executor):
     def attrs(self, st):
         return dict(st.ghost.get("modattrs", {}))
 
+    _suppress_cache = None
+
+    def s_With(self, s, st):
+        # `with contextlib.suppress(E): body` is executed as `try: body  except E: pass` (round 8)
+        if self._suppress_cache is None:
+            self._suppress_cache = {}
+        if id(s) not in self._suppress_cache:
+            self._suppress_cache[id(s)] = (s, O.suppress_as_try(self.module.imports, s))
+        t = self._suppress_cache[id(s)][1]
+        return self.s_Try(t, st) if t is not None else super().s_With(s, st)
+
     def b_getattr(self, st, args, kwargs, node):
         if len(args) >= 2 and isinstance(args[0], VExt) and args[0].sort == "PyModule" and isinstance(args[1], VStr) and args[1].const() is not None:
             key = (args[0].t.get_id(), args[1].const())
@@ -940,6 +951,29 @@ def _own(fnode):
         stack.extend(ast.iter_child_nodes(n))
 
 
+def _released_by_next_finally(fnode, parents, assign, tgt, releasers):
+    """`tgt = opener(...)` is released on all paths when the statement right after it (same block) is a `try` whose `finally` calls
+    `tgt.<releaser>()` as a statement of its own (not under a condition) and `tgt` is a plain local bound nowhere else in the function:
+    what `with opener(...) as ...:` expands to.  Anything else is not recognised here (the caller answers `unknown`)."""
+    if not tgt.isidentifier():
+        return False
+    if sum(1 for x in ast.walk(fnode) if isinstance(x, ast.Name) and x.id == tgt and isinstance(x.ctx, (ast.Store, ast.Del))) != 1:
+        return False
+    if any(isinstance(x, (ast.Global, ast.Nonlocal)) and tgt in x.names for x in ast.walk(fnode)):
+        return False
+    owner = parents.get(id(assign))
+    for fld in ("body", "orelse", "finalbody"):
+        stmts = getattr(owner, fld, None)
+        if isinstance(stmts, list) and any(st is assign for st in stmts):
+            i = next(k for k, st in enumerate(stmts) if st is assign)
+            nxt = stmts[i + 1] if i + 1 < len(stmts) else None
+            return isinstance(nxt, ast.Try) and any(
+                isinstance(st, ast.Expr) and isinstance(st.value, ast.Call) and isinstance(st.value.func, ast.Attribute)
+                and st.value.func.attr in releasers and isinstance(st.value.func.value, ast.Name) and st.value.func.value.id == tgt
+                for st in nxt.finalbody)
+    return False
+
+
 def deps(fnode, expr, params):
     """Parameters that `expr` may depend on (through local assignments), flow-insensitive."""
     dep = {p: {p} for p in params}
@@ -1566,6 +1600,8 @@ def policy(repo, tier):
     bad, n_sites = [], 0
     OPENERS = ("olefile.OleFileIO", "OleFileIO", "zipfile.ZipFile", "tarfile.open", "SevenZipFile", "tempfile.TemporaryDirectory", "open", "load_workbook",
                "ZipContext", "OOXMLZipContext", "_DocxContext", "_PptxContext", "_OdtContext", "_OdsContext", "_OdpContext", "_EpubContext", "open_zipfile")
+    # the release method of an opener whose context-manager exit is not `close()` (TemporaryDirectory.__exit__ is `cleanup()`)
+    RELEASERS = {"tempfile.TemporaryDirectory": ("cleanup",)}
     for rel, m in mods.items():
         for q, fn in m.functions.items():
             parents = {}
@@ -1590,6 +1626,8 @@ def policy(repo, tier):
                                      for c in closes for t in ast.walk(fn) if isinstance(t, ast.Try))
                     if closes and in_finally:
                         continue
+                    if _released_by_next_finally(fn, parents, p, tgt, RELEASERS.get(dotted(n.func), ("close",))):
+                        continue      # `h = opener(); try: ... finally: h.<release>()`: the explicit form of the with-statement
                     if tgt.startswith("self."):
                         cls = q.rsplit(".", 1)[0]
                         if any(k.startswith(cls + ".") and k.endswith(("close", "__exit__")) for k in m.functions):
